@@ -28,6 +28,7 @@ def make_cfg(rng: random.Random, profile: str = "c12") -> dict:
         "p_float": rng.choice([0.0, 0.3, 0.7]),
         "p_complex": rng.choice([0.0, 0.0, 0.1]),
         "p_scaled": rng.choice([0.0, 0.3, 0.6]),
+        "narrow": rng.random() < 0.25,             # objects stored as int8/int16/int32/float32
         "p_noise": rng.choice([0.0, 0.0, 0.3]),   # rounding residues (1e-17 .. 1e-9) where exact zeros / relations were
         "cold_start": rng.random() < 0.5,
         "p_evict_step": rng.choice([0.0, 0.03, 0.08]),
@@ -83,7 +84,9 @@ class PoolGen:
         if r < self.cfg["p_complex"]:
             return "c"
         if r < self.cfg["p_complex"] + self.cfg["p_float"]:
-            return "f"
+            return "f32" if self.cfg.get("narrow") and self.rng.random() < 0.3 else "f"
+        if self.cfg.get("narrow") and self.rng.random() < 0.4:
+            return self.rng.choice(["i16", "i32", "i8"])   # pixel / fixed-point coordinates
         return "i"
 
     def hom(self, dim, allow_inf=True):
@@ -143,7 +146,7 @@ class PoolGen:
         how = "hom"
         vv = self.scaled(v)
         dt = self.dt()
-        if any(isinstance(x, float) and x != int(x) for x in vv) and dt == "i":
+        if any(isinstance(x, float) and x != int(x) for x in vv) and dt in ("i", "i8", "i16", "i32"):
             dt = "f"
         if vv is v and v[-1] == 1 and self.rng.random() < 0.4:
             how = "affine"
@@ -165,7 +168,7 @@ class PoolGen:
         if len(shape) == 2:
             arr = [rows[i * shape[1]:(i + 1) * shape[1]] for i in range(shape[0])]
         dt = self.dt()
-        if dt == "i" and any(isinstance(x, float) and x != int(x) for r in rows for x in r):
+        if dt in ("i", "i8", "i16", "i32") and any(isinstance(x, float) and x != int(x) for r in rows for x in r):
             dt = "f"
         how = "from_array" if self.rng.random() < 0.3 else "ctor"
         return self.add("pointcoll", [arr], {"dt": dt, "how": how}, tag=f"pointcoll{dim}")
@@ -502,6 +505,11 @@ def _scenarios(self, d):
             c2 = self.add("circle", [ctr, 2], tag="conic")
             ps = [pt(x, "i") for x in ((0, -1), (0, 1), (1, 0), (0, 0), (0, 4), (2, 2))]
             self.script.append({"op": "from_points_and_conics", "args": ps + [c1, c2]})
+            l1 = self.add("ptlist", [ps[:3]], tag="seq")
+            l2 = self.add("ptlist", [ps[3:]], tag="seq")
+            self.script.append({"op": "from_points_and_conics_lists", "args": [l1, l2, c1, c2]})
+            self.script.append({"op": "polygon_from_list", "args": [l1]})
+            self.script.append({"op": "from_points_and_conics_lists", "args": [l1, l2, c1, c2]})
             self.script.append({"op": "q_tangent", "args": [c1, ps[0]]})
         elif c == 1:  # Conic.from_tangent / from_crossratio / from_foci
             a, b, c_, dd, e = (pt(x) for x in ((-1.5, 0.5), (0, -1), (1.5, 0.5), (1.5, -0.5), (0, 1)))
